@@ -2,12 +2,13 @@
 PROP = dict(
         pkg=".", test="TestVerifC16", files=["mc/c16/*.go"], libs=["explore", "canon"],
         level="model_checking", shards=1,
-        level_text="Explicit-state model checking of the real connIDManager (peer-issued IDs), the real connIDGenerator (own IDs) and the real Transport packetHandlerMap against a ledger reference model (issued / retired / reported sequence numbers, advertised limits, live routing set, tokens of the IDs in use): every transition is executed on the real code, states are merged on a reflective canonical dump plus the model state. Right level because the property quantifies over whole histories of NEW_CONNECTION_ID / RETIRE_CONNECTION_ID frames, rotation, path probing, handshake completion and close, which is a finite space over small sequence-number ranges chosen around the limits 4 (stored), 6 (issued) and 2..8 (advertised).",
-        level_note="Trusted: the reference ledgers in mc/c16, the reflective canonicaliser, the harness-owned rotation period (the field packetsPerConnectionID is overwritten with 2 after each step because utils.Rand reads crypto/rand), the harness clock (monotime values passed in; testing/synctest virtual clock for the closing-period timer of the real Transport). The advertised limit of a plain endpoint is taken to be protocol.MaxActiveConnectionIDs (the constant connection.go puts into its transport parameters); for spec-driven clients it is read from the shipped specs / passed through SetConnectionIDLimit as u_connection.go does. Whole connections (C01/C17 worlds) are not run here.",
+        level_text="Explicit-state model checking of the real connIDManager (peer-issued IDs), the real connIDGenerator (own IDs) and the real Transport packetHandlerMap against ledger reference models (issued / retired / reported sequence numbers, advertised limits, live routing set, tokens of the IDs in use): every transition is executed on the real code, states are merged on a dump of every field of the real objects plus the model state. Right level because the property quantifies over whole histories of NEW_CONNECTION_ID / RETIRE_CONNECTION_ID frames, rotation, path probing, handshake completion and close, which is a finite space over small sequence-number ranges chosen around the limits 4 (stored), 6 (issued) and 2..8 (advertised).",
+        level_note="Trusted: the reference ledgers in mc/c16; the hand-written state dumps (their field lists are pinned with reflection: a changed struct layout is a harness error, never a silent loss of state); the harness-owned rotation period (packetsPerConnectionID is overwritten with 2 after each step because utils.Rand reads crypto/rand); the harness clock (monotime values passed in; testing/synctest virtual clock for the closing-period timer of the real Transport, one bubble per executed path). The advertised limit of a plain endpoint is taken to be protocol.MaxActiveConnectionIDs (the constant connection.go puts into its transport parameters); for spec-driven clients it is read from the shipped specs with PopulateFromUQUIC and handed to SetConnectionIDLimit as u_connection.go does. Whole connections (C01/C17 worlds) are not run here.",
         technique="explicit-state BFS over the real implementation with reference-model oracle; explicit case list for the shipped specs",
         deadline=dict(quick=90, thorough=900),
         rule="explicit-state BFS over the real connIDManager / connIDGenerator / Transport.packetHandlerMap; successor = fresh instance + replay of the shortest path + one op",
-        assumptions=["sequence numbers 1..5 (quick) / 1..6 (thorough) for peer-issued IDs; own IDs up to sequence number 7 / 9; 4-byte and zero-length IDs",
+        assumptions=["peer-issued sequence numbers 1..5 (quick) / 1..6, 1..8 for spec-driven limits (thorough); own IDs up to sequence number 7 / 9; 4-byte and zero-length IDs; path IDs 1..2",
                      "rotation period forced to 2 packets; clock in 1 ms ticks, retirement / closing delays of 1-2 ticks",
-                     "plain endpoints advertise protocol.MaxActiveConnectionIDs (read from connection.go, not observed on the wire here)"],
+                     "plain endpoints advertise protocol.MaxActiveConnectionIDs (read from connection.go, not observed on the wire here)",
+                     "each part gets a share of the run's deadline; the bounds are chosen so that no share is used up"],
     )
